@@ -52,7 +52,6 @@ type Engine struct {
 	mu      sync.Mutex
 	partMap map[string]*list.Element // 分区 LRU
 	lru     *list.List
-	seq     int64 // 全局单调到达序号（SKIP 起点跟踪用）
 
 	log     logger.Logger // 求值诊断日志器（per-engine，消除包级竞争）
 	errOnce sync.Map      // key: where+"\x00"+src，每表达式仅记一次求值失败（per-engine 有界）
@@ -64,6 +63,7 @@ type partition struct {
 	pending   map[int64][]*run // 贪婪：已完成 run 按 startSeq 暂存，等延伸终止选最长 emit
 	matchNo   int              // 本分区已输出匹配数（MATCH_NUMBER）
 	nextStart int64            // 下一个允许起匹配的 seq（SKIP 策略）
+	seq       int64            // 本分区单调到达序号：分区内连续，故 startSeq+nrows-1 即匹配末行的 seq
 }
 
 // frame 是匹配历史的不可变节点（cons-list）：advance 仅 O(1) 追加，前缀天然共享，
@@ -340,11 +340,12 @@ func (e *Engine) Process(row map[string]any, partitionKey string) []map[string]a
 
 	e.mu.Lock()
 	defer e.mu.Unlock()
-	e.seq++
-	mrSeq := e.seq
 
+	// 序号按分区计：run 只消费本分区的行，skipTo/seqOfLabel 用 startSeq+下标 推算行的 seq，
+	// 全局序号在分区交错到达时不连续，会让 SKIP 起点落在已匹配的行上（匹配重叠）。
 	p := e.getPartition(partitionKey)
-	emitted := e.step(p, row, ts, mrSeq)
+	p.seq++
+	emitted := e.step(p, row, ts, p.seq)
 	e.evictIfNeeded()
 	return emitted
 }
@@ -603,7 +604,7 @@ func (e *Engine) skipTo(c *run) int64 {
 	return endSeq + 1
 }
 
-// seqOfLabel 返回匹配中某标签（或 SUBSET 的任一成分）首/末出现行的全局 seq。
+// seqOfLabel 返回匹配中某标签（或 SUBSET 的任一成分）首/末出现行的分区内 seq。
 func seqOfLabel(c *run, label string, first bool, subsets map[string][]string) int64 {
 	if label == "" {
 		return -1
